@@ -191,11 +191,54 @@ theorem C33_once_holds : C33_once := by
     obtain ⟨_, hu, _⟩ := owner_unique_of_live s inv n a sn hl hw
     exact hu sn' a hq rfl
 
+/-! ### A'. no window at the end of a worker run -/
+
+def depSafe (d : Dep) : Prop := d.job = true ∨ d.snapshot = false
+
+theorem nodeLeftSnap_of_safe (d : Dep) (h : depSafe d) : nodeLeftSnap d = d := by
+  unfold nodeLeftSnap
+  rcases h with h | h <;> simp [h]
+
+theorem runActs_nodeLefts_of_safe (n : Nat) (d : Dep) (h : depSafe d) :
+    runActs d (List.replicate n Act.nodeLeft) = d := by
+  induction n with
+  | zero => rfl
+  | succ n ih =>
+    simp only [List.replicate_succ, runActs, List.foldl_cons, act]
+    rw [nodeLeftSnap_of_safe d h]
+    exact ih
+
+theorem runActs_append (d : Dep) (x y : List Act) : runActs d (x ++ y) = runActs (runActs d x) y := by
+  simp [runActs, List.foldl_append]
+
+/-- with the code's order (snapshot deleted BEFORE the job is released) no number of duplicate
+    NodeLefts handled before, between or after the two calls of `finish` starts another relocation of
+    the departure, and the run ends with the job released and the snapshot gone -/
+def C33_finish_window : Prop :=
+  ∀ (a b c n : Nat),
+    let d := runActs ⟨true, true, n⟩ (finishWith finishOrder a b c)
+    d.started = n ∧ d.job = false ∧ d.snapshot = false
+
+theorem C33_finish_window_holds : C33_finish_window := by
+  intro a b c n
+  simp only [finishWith, finishOrder, runActs_append]
+  rw [runActs_nodeLefts_of_safe a _ (Or.inl rfl)]
+  have h1 : runActs ⟨true, true, n⟩ [Act.call .deletePeerState] = ⟨false, true, n⟩ := rfl
+  rw [h1, runActs_nodeLefts_of_safe b _ (Or.inl rfl)]
+  have h2 : runActs ⟨false, true, n⟩ [Act.call .endRelocation] = ⟨false, false, n⟩ := rfl
+  rw [h2, runActs_nodeLefts_of_safe c _ (Or.inr rfl)]
+  exact ⟨rfl, rfl, rfl⟩
+
+/-- the reverse order opens a window: one duplicate NodeLeft between the calls starts a second
+    relocation of the same departure (this is what the `nl` differential and the FACTS entry guard) -/
+theorem finish_reversed_refuted :
+    (runActs ⟨true, true, 1⟩ (finishWith [.endRelocation, .deletePeerState] 0 1 0)).started = 2 := by decide
+
 /-! ### the full statement -/
 
-def C33_full : Prop := C33_accounting ∧ C33_abort_accounting ∧ C33_once
+def C33_full : Prop := C33_accounting ∧ C33_abort_accounting ∧ C33_once ∧ C33_finish_window
 
-theorem C33_holds : C33_full := ⟨C33_accounting_holds, C33_abort_accounting_holds, C33_once_holds⟩
+theorem C33_holds : C33_full := ⟨C33_accounting_holds, C33_abort_accounting_holds, C33_once_holds, C33_finish_window_holds⟩
 
 /-! ### non-vacuity (tests by evaluation on concrete histories) -/
 
